@@ -3,6 +3,7 @@ package props
 import (
 	"bytes"
 	"fmt"
+	"sync"
 	"time"
 
 	ws "github.com/gorilla/websocket"
@@ -77,6 +78,10 @@ func c10Exec(cfg Cfg, prog []WStep, seed uint64, faultAt int, fk xport.FaultKind
 
 func runC10(ctx *core.Ctx, out *core.Out) {
 	r := ctx.R
+	if ctx.Idx%25 == 7 {
+		c10ConcurrentFault(ctx, out)
+		return
+	}
 	cfg := genCfg(r)
 	max := 3000
 	if r.Chance(1, 6) {
@@ -309,3 +314,91 @@ func opsDesc(ops []xport.Op) []string {
 }
 
 var _ = ws.CloseMessage
+
+// c10ConcurrentFault: a data write is in flight inside the transport (held by a
+// gate) while WriteControl callers queue behind it; the in-flight write then
+// fails. Nothing may be written afterwards and every queued caller must fail.
+func c10ConcurrentFault(ctx *core.Ctx, out *core.Out) {
+	r := ctx.R
+	cfg := genCfg(r)
+	if cfg.WB < 64 {
+		cfg.WB = 64
+	}
+	fk := []xport.FaultKind{xport.FaultErr, xport.FaultTimeout, xport.FaultShort}[r.Intn(3)]
+	nc := xport.New(nil)
+	nc.Counted = func(k xport.OpKind) bool { return k == xport.OpWrite }
+	nc.FaultAt = map[int]xport.FaultKind{0: fk}
+	gate := make(chan struct{})
+	nc.Gate = gate
+	nc.GateIf = func(p []byte) bool { return true }
+	nc.Gated = make(chan struct{}, 1)
+	c := newConn(nc, cfg, &TrackPool{}, 0)
+	ncall := r.Range(1, 4)
+	var wg sync.WaitGroup
+	var werr error
+	wg.Add(1)
+	go func() {
+		defer wg.Done()
+		werr = c.WriteMessage(2, r.Payload(gen.PCounter, 300))
+	}()
+	released := false
+	release := func() {
+		if !released {
+			released = true
+			close(gate)
+		}
+	}
+	defer release()
+	select {
+	case <-nc.Gated:
+	case <-time.After(20 * time.Second):
+		out.Inconcl("the writer never reached the transport")
+		return
+	}
+	errs := make([]error, ncall)
+	for k := 0; k < ncall; k++ {
+		wg.Add(1)
+		go func(k int) {
+			defer wg.Done()
+			errs[k] = c.WriteControl(9, []byte(fmt.Sprintf("queued-%d", k)), time.Time{})
+		}(k)
+	}
+	time.Sleep(time.Duration(500+ctx.Idx%1500) * time.Microsecond) // let them queue on the write lock
+	release()
+	done := make(chan struct{})
+	go func() { wg.Wait(); close(done) }()
+	select {
+	case <-done:
+	case <-time.After(60 * time.Second):
+		out.Violate("C10:hang-after-concurrent-fault", "callers queued behind a failed write never returned", map[string]interface{}{"cfg": cfg})
+		return
+	}
+	out.Count("faults_injected", 1)
+	out.Count("concurrent_fault_runs", 1)
+	out.Eval(fmt.Sprintf("concfault|%s|%d|%d", cfg, fk, ncall), true)
+	d := map[string]interface{}{"cfg": cfg, "fault": fk.String(), "queued_writecontrol_callers": ncall, "ops": opsDesc(nc.Ops())}
+	if werr == nil {
+		out.Violate("C10:call-succeeds-during-failure:WriteMessage", "WriteMessage returned nil although its transport write failed", d)
+		return
+	}
+	writes := 0
+	for _, op := range nc.Ops() {
+		if op.Kind == xport.OpWrite {
+			writes++
+		}
+	}
+	if writes > 1 {
+		out.Violate("C10:write-after-failure", fmt.Sprintf("%d transport writes happened although the first one failed: callers that were queued on the write lock wrote after the failure", writes), d)
+		return
+	}
+	for k, e := range errs {
+		out.Count("later_calls_checked", 1)
+		if e == nil {
+			out.Violate("C10:call-succeeds-after-failure:WriteControl", fmt.Sprintf("WriteControl #%d, queued behind a write that failed, returned nil", k), d)
+			return
+		}
+	}
+	if e := c.WriteMessage(1, []byte("later")); e == nil {
+		out.Violate("C10:call-succeeds-after-failure:WriteMessage", "WriteMessage after the failure returned nil", d)
+	}
+}
